@@ -1110,7 +1110,9 @@ pub mod implementations {
 
         let variable = PrimitiveFlagsPair::new(arg, VariableFlags(READ_ONLY));
 
-        ctx.register_export(export_name.to_owned(), variable.clone())?;
+        // classes are registered with their file; a class declared inside a function is
+        // declared anew each time that function runs
+        ctx.register_export_latest(export_name.to_owned(), variable.clone())?;
         ctx.ref_variable(Cow::Owned(name.to_owned()), variable);
 
         Ok(())
